@@ -14,6 +14,7 @@ import (
 	expect "github.com/tailscale/goexpect"
 	"verif/sim/cisco"
 	"verif/sim/evlog"
+	"verif/sim/linuxdev"
 	"verif/sim/sshx"
 	"verif/sim/tape"
 	"verif/sim/world"
@@ -53,6 +54,13 @@ type Status struct {
 }
 
 type LiveResult struct {
+	// Common view of the device side of the session.
+	Kind     string // ASA, IOS, Linux
+	Transcr  []cisco.Rec
+	FaultSeq int
+	FaultK   int
+	Fired    map[string]int
+	LDev     *linuxdev.Device
 	Res      world.Result
 	Dev      *cisco.Device
 	Files    map[string]string // snapshot of basedir after the run
@@ -166,6 +174,7 @@ func (c *Ctx) LiveCisco(cs *CiscoCase, o LiveOpts, sched *tape.Tape) *LiveResult
 			s.Teardown()
 		}
 	})
+	r.Kind, r.Transcr, r.FaultSeq, r.FaultK, r.Fired = cs.Kind, dev.Transcr, dev.FaultSeq, dev.FaultK, dev.FaultsFired
 	r.Sessions = len(sessions)
 	r.Log = log.Copy()
 	r.EvHash = log.Hash()
